@@ -594,17 +594,17 @@ func init() {
 		NumBatches: func(tier string, seed int64) int {
 			n := len(Alphabet28)
 			if tier == "thorough" {
-				return 1 + n*n + mutT + 24 + len(c06BoundaryLens) + 40
+				return 1 + n*n + mutT + 64 + len(c06BoundaryLens) + 40
 			}
-			return 1 + n*n + mutQ + 14 + len(c06BoundaryLens) + 8
+			return 1 + n*n + mutQ + 16 + len(c06BoundaryLens) + 8
 		},
 		Run: func(c *rt.Ctx) {
 			entries := c06Entries()
 			n := len(Alphabet28)
-			nmut, ntow, ntyped := mutQ, 14, 8
+			nmut, ntow, ntyped := mutQ, 16, 8
 			sufLen := 1
 			if c.Tier == "thorough" {
-				nmut, ntow, ntyped, sufLen = mutT, 24, 40, 2
+				nmut, ntow, ntyped, sufLen = mutT, 64, 40, 2
 			}
 			switch {
 			case c.Idx == 0:
@@ -678,6 +678,22 @@ func init() {
 			case c.Idx <= n*n+nmut+ntow:
 				// nesting towers
 				k := c.Idx - (n*n + nmut) - 1
+				if c.Tier != "thorough" && k >= 14 {
+					// a struct that contains itself through a pointer member, far beyond the nesting
+					// limit: the struct decoder counts the levels itself (every struct entry point)
+					var se []c06Entry
+					for _, e := range entries {
+						if strings.Contains(e.name, "big-struct") {
+							se = append(se, e)
+						}
+					}
+					sh := [][3]string{{`{"e":`, "}", "null"}, {`{"e":`, "", ""}}[k-14]
+					doc := tower(sh[0], sh[1], 5000000, sh[2])
+					c06Run(c, 0, se, doc, "tower:"+sh[0]+" x 5000000 (self-referential struct entries)")
+					c.ObsMax("max_nesting_depth_struct_entries", 5000000)
+					c.NonTrivial("tower-struct", sh[0], sh[1])
+					return
+				}
 				if c.Tier != "thorough" && k >= 12 {
 					// the path evaluators alone on towers far beyond the nesting limit: a level that is not
 					// counted is a level of native recursion (every entry point gets these depths in the
@@ -700,7 +716,7 @@ func init() {
 					depths = []int{100, 1000, 9999, 10000, 10001, 100000, 1000000, 10000000}
 				}
 				d := depths[k%len(depths)]
-				shapes := [][3]string{{"[", "]", "1"}, {`{"a":`, "}", "null"}, {`[{"e":`, "}]", `"x"`}, {"[", "", ""}, {`{"a":`, "", ""}, {`[[{"e":{"e":[`, "", ""}}
+				shapes := [][3]string{{"[", "]", "1"}, {`{"a":`, "}", "null"}, {`[{"e":`, "}]", `"x"`}, {"[", "", ""}, {`{"a":`, "", ""}, {`[[{"e":{"e":[`, "", ""}, {`{"e":`, "}", "null"}, {`{"e":`, "", ""}}
 				sh := shapes[(k/len(depths))%len(shapes)]
 				doc := tower(sh[0], sh[1], d, sh[2])
 				c06Run(c, 0, entries, doc, fmt.Sprintf("tower:%s x %d", sh[0], d))
